@@ -1085,6 +1085,97 @@ def check_iteration(ctx, rng):
                       'restricted iteration does not return exactly the operations inside the requested area')
 
 
+# =============================================================================== shrinking of failing cases
+class Probe:
+    """records the signatures a case produces, without reporting anything"""
+    def __init__(self, seed=0):
+        self.sigs = []
+        self.seed = seed
+
+    def case(self, *a, **k):
+        pass
+
+    def count(self, *a, **k):
+        pass
+
+    def sample(self, *a, **k):
+        pass
+
+    def violation(self, sig, *a, **k):
+        self.sigs.append(vf.canon(sig))
+        return True
+
+    def broken_obligation(self, *a, **k):
+        self.sigs.append('broken')
+
+
+class SyncRun(Run):
+    def ask(self, line, cb):
+        try:
+            out = vf.run_model('tensor', [line])
+            cb(out[0] if out else 'EXN no answer')
+        except Exception as e:   # noqa
+            self.ctx.broken_obligation('model', str(e))
+
+
+def case_signatures(case):
+    pr = Probe()
+    try:
+        replay_case(pr, SyncRun(pr), case)
+    except Exception:   # noqa
+        pr.sigs.append('harness-exception')
+    return pr.sigs
+
+
+def remove_op(case, t):
+    spec, extra = case['spec'], dict(case.get('extra', {}))
+    new_spec = dict(radixes=spec['radixes'], ops=[o for i, o in enumerate(spec['ops']) if i != t])
+    expl = extra.get('explicit')
+    if expl is not None and len(expl) == spec_num_params(spec):
+        try:
+            order = spec_order(dict(spec))
+            pi, offs = 0, {}
+            for u in order:
+                offs[u] = (pi, op_np(spec['ops'][u]))
+                pi += offs[u][1]
+            a, k = offs[t]
+            extra['explicit'] = expl[:a] + expl[a + k:]
+        except Exception:   # noqa
+            extra.pop('explicit', None)
+    c = dict(case)
+    c['spec'], c['extra'] = strip_derived(new_spec), extra
+    return c
+
+
+def shrink_case(case, sig, budget=40):
+    """greedy: drop operations (then the state / explicit vector) while the same signature is still produced"""
+    if not isinstance(case, dict) or case.get('stream') not in ('exact', 'float') or 'spec' not in case:
+        return case
+    want = vf.canon(sig)
+    if want not in case_signatures(case):
+        return case           # not reproducible in isolation (depends on the stream position): keep as found
+    cur = case
+    progress = True
+    while progress and budget > 0:
+        progress = False
+        for t in range(len(cur['spec']['ops']) - 1, -1, -1):
+            if budget <= 0:
+                break
+            cand = remove_op(cur, t) if cur.get('stream') == 'exact' else dict(cur, spec=dict(radixes=cur['spec']['radixes'], ops=[o for i, o in enumerate(cur['spec']['ops']) if i != t]))
+            budget -= 1
+            if want in case_signatures(cand):
+                cur, progress = cand, True
+                break
+    if cur.get('stream') == 'exact':
+        for key in ('state', 'explicit'):
+            if key in cur.get('extra', {}) and budget > 0:
+                cand = dict(cur, extra={k: v for k, v in cur['extra'].items() if k != key})
+                budget -= 1
+                if want in case_signatures(cand):
+                    cur = cand
+    return cur
+
+
 # =============================================================================== entry points
 def gen_bounded_spec(rng, rad, nops, depth, allow_param, unitary_only):
     for _ in range(40):
@@ -1221,6 +1312,17 @@ def run(ctx: vf.Ctx):
     for i in range(ctx.n(1500, 30000)):
         guarded(ctx, 'iteration', dict(stream='iteration', index=i, seed=ctx.seed), lambda: check_iteration(ctx, rng))
     tm['iteration'] = round(time.time() - t0, 1)
+    # ---- shrink what failed (first case of each signature) before it is written to the replay file
+    t0 = time.time()
+    for v in ctx.violations[:12]:
+        try:
+            small = shrink_case(v['case'], v['signature'])
+            if small is not v['case']:
+                v['case'] = small
+                ctx.count('shrunk_cases')
+        except Exception:   # noqa
+            pass
+    tm['shrink'] = round(time.time() - t0, 1)
     ctx.cov['timings_s'] = tm
     ctx.cov['model_functions_with_theorems'] = ['apply_right', 'apply_left', 'eval_apply_right', 'sv_apply', 'get_unitary', 'get_statevector',
                                                 'get_unitary_and_grad', 'params', 'set_params', 'get_param_location', 'get_param', 'set_param', 'freeze_param']
